@@ -404,7 +404,30 @@ def gen_plan(uberjob, rng, MemStore):
     return plan, reg, nodes, text, {"boom": boom, "stores": stores, "n": len(nodes)}
 
 
+def empty_plan(ctx, uberjob):
+    """a plan without any node is a plan like any other: run / dry_run with a plain-value output neither add nodes to it nor
+    hand it out as the physical plan"""
+    for api, kw in (("run", {}), ("dry_run", {"dry_run": True}), ("run+failing transform", {"transform_physical": lambda p, o: 1 / 0})):
+        for out in (7, [1, {"k": (2, 3)}], None):
+            plan = uberjob.Plan()
+            with plan.scope("s"):
+                before = snap_plan(plan)
+                try:
+                    res = uberjob.run(plan, output=out, progress=None, **kw)
+                    oc = "ok"
+                except BaseException as e:      # noqa
+                    res, oc = None, type(e).__name__
+                after = snap_plan(plan)
+            ctx.case(("empty-plan", api, repr(out)))
+            d = diff(before, after)
+            if d:
+                ctx.fail("snapshot:empty-plan", "%s on an empty plan with output %r (%s) changed the caller's Plan: %s" % (api, out, oc, d), {"api": api, "output": repr(out)})
+            if api == "dry_run" and oc == "ok" and res[0] is plan:
+                ctx.fail("snapshot:empty-plan-returned", "dry_run on an empty plan returned the caller's own Plan object as the physical plan", {"output": repr(out)})
+
+
 def _cases(ctx, uberjob, rng, ins, MemStore, avs_state, first_scope, Node):
+    empty_plan(ctx, uberjob)
     from uberjob._registry import RegistryValue
     nplans = ctx.n(60, 900)
     for pi in range(nplans):
